@@ -82,8 +82,8 @@ class TriggerContext:
                 new_callback = result.process(self)
                 if new_callback is not None:
                     self.callbacks.append(new_callback)
-            except Exception:
-                deep.logging.exception("failed to process result {}", result)
+            except BaseException:
+                deep.logging.exception("failed to process result %s", result)
 
     @property
     def id(self):
